@@ -678,8 +678,48 @@ def check_program_ports(ctx, p):
     return len(h)
 
 
+def check_loop_outputs_again(ctx, c):
+    """the body of a tail loop finished a second time with another Break row (the user changed their mind): what the
+    TailLoop operation reports follows the body as it is now -- its Output node is the ground truth"""
+    from hugr import ops, tys
+    from hugr.build.cond_loop import TailLoop
+
+    ctx.count("monitor:loop-outputs-set-again")
+    rest_n = c["rest"]
+    tl = TailLoop([tys.Bool], [tys.Bool] * rest_n)
+    b, *rest = tl.inputs()
+    for step, k in enumerate(c["breaks"]):
+        e = tys.Either([tys.Bool], [tys.Bool] * k)
+        brk = tl.add_op(ops.Break(e), *([b] * k))
+        tl.set_loop_outputs(brk, *rest)
+        op = tl.hugr[tl.parent_node].op
+        want_out = ["Bool"] * (k + rest_n)
+        obs = {"outer.output": [repr(t) for t in op.outer_signature().output], "num_out": op.num_out,
+               "inner.output[0].rows": [len(r_) for r_ in op.inner_signature().output[0].variant_rows],
+               "inner.output.len": len(op.inner_signature().output)}
+        want = {"outer.output": want_out, "num_out": k + rest_n, "inner.output[0].rows": [1, k],
+                "inner.output.len": 1 + rest_n}
+        for key_ in want:
+            if obs[key_] != want[key_]:
+                ctx.disc(None, "loop-signature-after-outputs-set-again", [step, key_], want[key_], obs[key_],
+                         stratum="loop-again", case=c)
+        for i_ in range(k + rest_n):
+            try:
+                got = repr(tl.hugr.port_type(tl.parent_node.out(i_)))
+            except Exception as ex:  # noqa: BLE001
+                got = ["raised", type(ex).__name__]
+            if got != "Bool":
+                ctx.disc(None, "loop-port-type-after-outputs-set-again", [step, i_], "Bool", got,
+                         stratum="loop-again", case=c)
+
+
 def run(ctx):
     from vf.gen.prog import gen_program
+
+    for i in ctx.mine(36):
+        case = {"rest": i % 3, "breaks": [[1, 2], [2, 0], [0, 3], [1, 1, 2], [3, 1], [2, 2, 0]][(i // 3) % 6]}
+        ctx.guard("loop-again", case, check_loop_outputs_again, ctx, case)
+        ctx.case("loop-again", case, True)
 
     for i in ctx.mine(ctx.n(300, 30000)):
         r = ctx.rng("program", i)
@@ -725,5 +765,7 @@ def replay(ctx, rec):
         check_history(ctx, rec["case"])
     elif rec.get("stratum") == "declared-poly":
         check_declared_poly(ctx, rec["case"])
+    elif rec.get("stratum") == "loop-again":
+        check_loop_outputs_again(ctx, rec["case"])
     else:
         check_case(ctx, rec["case"])
